@@ -18,7 +18,11 @@ import (
 // upstream can make it fail - including the ways that take a minute of (virtual) time. Whatever the client
 // is sent back must not contain the password in any of its encodings.
 func errorResponses(x *explore.X) {
-	secret := secrets[x.ChooseFree("secret", len(secrets))]
+	// (the last secret is longer than the 255 octets a SOCKS5 password may have: the dialer refuses it - the
+	// refusal goes to the client like every other failure)
+	secretsV := append(append([]string{}, secrets...), strings.Repeat("Lp9x", 75))
+	secret := secretsV[x.ChooseFree("secret", len(secretsV))]
+	socks := x.ChooseFree("upstream-scheme", 2) == 1 // 0: http proxy, 1: socks5 proxy
 	fromTable := x.ChooseFree("password-from", 2) == 1 // 0: --proxy userinfo, 1: --credentials entry for the proxy
 	connect := x.ChooseFree("request", 2) == 1         // 0: GET through the upstream, 1: CONNECT through the upstream
 	fault := x.ChooseFree("fault", 7)
@@ -28,12 +32,16 @@ func errorResponses(x *explore.X) {
 		return
 	}
 	opts := world.Options{}
+	scheme := "http"
+	if socks {
+		scheme = "socks5"
+		faults = []string{"dial refused", "dial black-holed", "no acceptable method", "credentials rejected", "upstream never answers", "upstream closes without answering", "upstream answers garbage"}
+	}
 	if fromTable {
-		opts.Upstream = "http://up.test:8080"
+		opts.Upstream = scheme + "://up.test:8080"
 		opts.Credentials = []string{"pxuser:" + secret + "@up.test:8080"}
 	} else {
-		opts.Upstream = "http://pxuser:" + url.QueryEscape(secret) + "@up.test:8080"
-		opts.Upstream = "http://" + url.UserPassword("pxuser", secret).String() + "@up.test:8080"
+		opts.Upstream = scheme + "://" + url.UserPassword("pxuser", secret).String() + "@up.test:8080"
 	}
 	w, err := world.Start(opts)
 	if err != nil {
@@ -64,6 +72,21 @@ func errorResponses(x *explore.X) {
 	serve := func() {
 		for p := srv.Accept(); p != nil; p = srv.Accept() {
 			hops = append(hops, p)
+			if socks {
+				switch fault {
+				case 2:
+					p.Send([]byte{5, 0xff})
+				case 3:
+					p.Send([]byte{5, 2})
+					world.Settle(time.Second)
+					p.Send([]byte{1, 1})
+				case 5:
+					p.Close()
+				case 6:
+					p.Send([]byte("HTTP/1.1 400 Bad Request\r\n\r\n"))
+				}
+				continue
+			}
 			switch fault {
 			case 2:
 				p.Send([]byte("HTTP/1.1 403 Forbidden\r\nContent-Length: 6\r\n\r\ndenied"))
@@ -82,7 +105,7 @@ func errorResponses(x *explore.X) {
 		world.Settle(time.Minute)
 		serve()
 	}
-	what := fmt.Sprintf("password %q from %s, %s through the upstream proxy, %s", secret, map[bool]string{false: "--proxy", true: "--credentials"}[fromTable], method, faults[fault])
+	what := fmt.Sprintf("password %q from %s, %s through the upstream "+scheme+" proxy, %s", world.Clip([]byte(secret)), map[bool]string{false: "--proxy", true: "--credentials"}[fromTable], method, faults[fault])
 	got := cl.Recv()
 	x.Check()
 	used := false
@@ -102,7 +125,7 @@ func errorResponses(x *explore.X) {
 		if n != "" && strings.Contains(string(got), n) {
 			i := strings.Index(string(got), n)
 			lo, hi := max(0, i-120), min(len(got), i+len(n)+40)
-			x.Failf("secret-disclosed/error-response/upstream-proxy", "%s: the response sent to the client contains the password (%q): …%s…", what, n, got[lo:hi])
+			x.Failf("secret-disclosed/error-response/upstream-proxy", "%s: the response sent to the client contains the password (%q): …%s…", what, world.Clip([]byte(n)), got[lo:hi])
 			break
 		}
 	}
@@ -110,7 +133,7 @@ func errorResponses(x *explore.X) {
 	if len(rs.Msgs) > 0 {
 		st = rs.Msgs[0].Status
 	}
-	x.Outcome(fmt.Sprintf("%s/%s/%d", method, faults[fault], st))
+	x.Outcome(fmt.Sprintf("%s/%s/%s/%d", scheme, method, faults[fault], st))
 	cl.Close()
 	for _, p := range hops {
 		p.Close()
